@@ -429,6 +429,34 @@ class Analyzer:
 
     # -- expression evaluation
     def ev(self, e, st):
+        """value of e in state st.  Expression facts ("this side-effect-free
+        sub-expression is known to lie in I", pushed while evaluating the arms
+        of a ?: whose condition compares it with a constant) are met with the
+        structural result - this is what makes the saturation idiom
+        (X > C ? C : (X < c ? c : X)) exact when X is not a variable."""
+        v = self._ev(e, st)
+        ef = getattr(self, '_exprfacts', None)
+        if ef and sx.kind(e) in ('bin', 'idx', 'deref', 'field', 'cast', 'paren', 'un', 'call', 'cond'):
+            kk = sx.key(e)
+            for fk, fv in ef:
+                if fk == kk:
+                    v = meet(v, fv)
+        return v
+
+    def _cond_exprfacts(self, c, pol):
+        """[(key, interval)] for complex operands compared with constants in c"""
+        out = []
+        from . import guards as _g
+        for op, l, r in _g.atoms(c, pol):
+            for a, b, o in ((l, r, op), (r, l, {'<': '>', '<=': '>=', '==': '==', '!=': '!='}[op])):
+                if b[0] == 'int' and isinstance(a, tuple) and a[0] not in ('int', 'local', 'param'):
+                    cst = b[1]
+                    iv = {'<': mk(-INF, cst - 1), '<=': mk(-INF, cst), '>': mk(cst + 1, INF), '>=': mk(cst, INF), '==': const(cst)}.get(o)
+                    if iv is not None:
+                        out.append((a, iv))
+        return out
+
+    def _ev(self, e, st):
         k = sx.kind(e)
         if k is None:
             return TOP
@@ -545,10 +573,17 @@ class Analyzer:
             if mm is not None:
                 return mm
             out = BOT
-            if t != const(0):
-                out = join(out, self.ev(e[2], self.refine(st, e[1], True)))
-            if t != const(1):
-                out = join(out, self.ev(e[3], self.refine(st, e[1], False)))
+            old = getattr(self, '_exprfacts', None) or []
+            pure = not any(x[0] in ('assign', 'cassign', 'inc', 'call') for x in sx.walk(e[1]))
+            try:
+                if t != const(0):
+                    self._exprfacts = old + (self._cond_exprfacts(e[1], True) if pure else [])
+                    out = join(out, self.ev(e[2], self.refine(st, e[1], True)))
+                if t != const(1):
+                    self._exprfacts = old + (self._cond_exprfacts(e[1], False) if pure else [])
+                    out = join(out, self.ev(e[3], self.refine(st, e[1], False)))
+            finally:
+                self._exprfacts = old
             return out
         if k == 'comma':
             return self.ev(e[2], st)
@@ -1564,3 +1599,67 @@ def product_analysis(prog, f, nq, transition, q0=0, **kw):
     def feasible(b, q):
         return (b * nq + q) in an.IN and an.IN[b * nq + q] is not None
     return an, feasible
+
+
+def inline_summary(prog, max_depth=2, extra=None):
+    """call_summary that analyses small side-effect-free callees with the
+    abstract arguments bound to their parameters and returns the join of the
+    values at their return statements.  Only callees whose body contains no
+    store through a pointer, no call to a non-inlinable function and at most
+    `40` CFG blocks are inlined; everything else falls through (None)."""
+    cache = {}
+
+    def _inlinable(g):
+        if len(g.blocks) > 40:
+            return False
+        for n in g.all_nodes():
+            if n[0] in ('assign', 'cassign', 'inc'):
+                lv = sx.strip_paren(n[1] if n[0] == 'assign' else (n[2] if n[0] == 'cassign' else n[3]))
+                if sx.kind(lv) != 'local':
+                    return False
+            if n[0] == 'asm':
+                return False
+        return True
+
+    def summary(an, e, st, depth=0):
+        if extra is not None:
+            r = extra(an, e, st)
+            if r is not None:
+                return r
+        name = sx.callee_name(e)
+        if name is None:
+            return None
+        g = prog.resolve_in(an.f, name)
+        if g is None or g is an.f or not g.blocks:
+            return None
+        ok = cache.get(('inl', g.file, name))
+        if ok is None:
+            ok = cache[('inl', g.file, name)] = _inlinable(g)
+        if not ok:
+            return None
+        d = getattr(an, '_inline_depth', 0)
+        if d >= max_depth:
+            return None
+        args = tuple(an.ev(a, st) for a in e[2])
+        key = (g.file, name, args)
+        if key in cache:
+            return cache[key]
+        entry = {('param', i): v for i, v in enumerate(args) if i < len(g.params)}
+        try:
+            sub = Analyzer.__new__(Analyzer)
+            sub._inline_depth = d + 1
+            Analyzer.__init__(sub, prog, g, entry_state=entry, call_summary=summary, havoc_fields_on_call=False)
+        except RecursionError:
+            return None
+        res = BOT
+        cfb = sub.cf
+        for b, i, s in cfb.positions():
+            if sx.kind(s) == 'ret' and s[1] is not None:
+                stb = sub.state_at(b, i)
+                if stb is not None:
+                    res = join(res, sub.ev(s[1], stb))
+        if res == BOT:
+            res = None
+        cache[key] = res
+        return res
+    return summary
